@@ -384,7 +384,7 @@ static sexp_uint_t integer_log2 (sexp_uint_t x) {
 sexp sexp_integer_length (sexp ctx, sexp self, sexp_sint_t n, sexp x) {
   sexp_sint_t tmp;
 #if SEXP_USE_BIGNUMS
-  sexp_sint_t hi;
+  sexp_sint_t hi, j;
 #endif
   if (sexp_fixnump(x)) {
     tmp = sexp_unbox_fixnum(x);
@@ -392,8 +392,16 @@ sexp sexp_integer_length (sexp ctx, sexp self, sexp_sint_t n, sexp x) {
 #if SEXP_USE_BIGNUMS
   } else if (sexp_bignump(x)) {
     hi = sexp_bignum_hi(x);
-    return sexp_make_fixnum(integer_log2(sexp_bignum_data(x)[hi-1])
-                            + (hi-1)*sizeof(sexp_uint_t)*CHAR_BIT);
+    tmp = integer_log2(sexp_bignum_data(x)[hi-1])
+      + (hi-1)*sizeof(sexp_uint_t)*CHAR_BIT;
+    /* -(2^k) is ...111000 in two's complement: one bit shorter than 2^k */
+    if (sexp_bignum_sign(x) < 0
+        && (sexp_bignum_data(x)[hi-1] & (sexp_bignum_data(x)[hi-1]-1)) == 0) {
+      for (j=0; j<hi-1 && sexp_bignum_data(x)[j]==0; j++)
+        ;
+      if (j == hi-1) tmp--;
+    }
+    return sexp_make_fixnum(tmp);
 #endif
   } else {
     return sexp_type_exception(ctx, self, SEXP_FIXNUM, x);
